@@ -206,6 +206,30 @@ def load_known(pid: str) -> tuple[list[dict], list[dict]]:
     return [e for e in ents if e.get("status") == "open"], [e for e in ents if e.get("status") == "fixed"]
 
 
+def load_known_cases(pid: str) -> dict:
+    """known_cases/<pid>.json: finding id -> list of case ids (the enumerated inputs that fail on the
+    unchanged tree because of that finding). Written by tools/record_cases.py, reviewed and committed;
+    never written by a check."""
+    f = VERIF / "known_cases" / f"{pid}.json"
+    if not f.exists():
+        return {}
+    return {k: set(v) for k, v in json.loads(f.read_text()).items()}
+
+
+def known_hit(open_known: list[dict], cases: dict, failure: dict):
+    """The open finding a failure belongs to: its key pattern matches and, when the failure comes
+    from a deterministic enumeration (it carries a case id) and the finding has recorded cases, the
+    case is one of them. A new failing case of a known call site is therefore still a violation."""
+    for k in open_known:
+        if not key_matches(k["key"], failure["key"]):
+            continue
+        rec = cases.get(k["id"])
+        if rec is not None and failure.get("case") is not None and failure["case"] not in rec:
+            continue
+        return k
+    return None
+
+
 def key_matches(pattern: dict | str, key: dict | str) -> bool:
     """A known-finding key matches when every field of the pattern equals the failure's field
     ('*' leaves a field open)."""
